@@ -233,6 +233,9 @@ func runC02send(cfg config, rep *hx.Report, cf *hx.CasesFile, n int) {
 		label := "all-acknowledged"
 		if c.nfiles > 0 {
 			at := rng.Intn(c.nfiles)
+			if rng.Bool() {
+				at = c.nfiles - 1 // the fault strikes when only the last acknowledgement is outstanding
+			}
 			switch kind {
 			case 0, 1:
 			case 2:
@@ -267,6 +270,9 @@ func runC02send(cfg config, rep *hx.Report, cf *hx.CasesFile, n int) {
 		rep.Evaluations++
 		rep.Count("send:" + label)
 		desc := map[string]any{"id": c.id, "files": c.nfiles, "streams": c.streams, "cs": c.cs, "actions": c.actions, "early": c.early, "events": o.evs}
+		if o.err != nil {
+			desc["sender_error"] = o.err.Error()
+		}
 		rep.CaseIndex[fmt.Sprint(c.id)] = desc
 		res := 0
 		switch {
